@@ -17,6 +17,7 @@ package main
 import (
 	"fmt"
 	"math/big"
+	"os"
 	"runtime/debug"
 	"sort"
 	"strings"
@@ -508,6 +509,23 @@ func c4SameSet(a, b []int) bool {
 	return true
 }
 
+// does e contain a bound atom (>1, <3, >=2 or a meet of them)
+func (u *c4Universe) hasBound(e *c4Expr) bool {
+	switch e.kind {
+	case 0:
+		s := u.src[e.atom]
+		return strings.ContainsAny(s, "<>")
+	case 1:
+		return u.hasBound(e.l) || u.hasBound(e.r)
+	}
+	for _, t := range e.terms {
+		if u.hasBound(t.e) {
+			return true
+		}
+	}
+	return false
+}
+
 // does the transcribed algorithm deviate from the spec on e
 func (u *c4Universe) refDeviates(e *c4Expr) bool {
 	mv, md := u.refModel(e)
@@ -527,7 +545,18 @@ var c4Atoms = []string{
 	"{a: 1}", "{a: 2}", "{a: int}", "{b: 1}",
 }
 
+// canonical text of a value of the universe: struct fields sorted by label
 func c4Key(v cue.Value) string {
+	if v.IncompleteKind() == cue.StructKind {
+		if it, err := v.Fields(cue.Optional(true)); err == nil {
+			var fs []string
+			for it.Next() {
+				fs = append(fs, it.Selector().String()+": "+c4Key(it.Value()))
+			}
+			sort.Strings(fs)
+			return "{" + strings.Join(fs, ", ") + "}"
+		}
+	}
 	return strings.Join(strings.Fields(fmt.Sprint(v)), " ")
 }
 
@@ -822,6 +851,11 @@ func runC04(c *Cfg) {
 	g := &c4Gen{u: u}
 	c.Count(fmt.Sprintf("universe-elements-%d", len(u.src)))
 	cb := u.pbits.String() + " " + u.cbits.String()
+	if os.Getenv("C04_DUMP") != "" {
+		for i, m := range u.mask {
+			fmt.Fprintf(os.Stderr, "a%s = %s\n", m.String(), u.src[i])
+		}
+	}
 
 	// internal table cells of the default-mode algebra (I level): the tables themselves
 	// are bridge theorems; these lines tie the driver's protocol to them
@@ -948,6 +982,7 @@ func runC04(c *Cfg) {
 		src, rpn   string
 		obs        c4Obs
 		nn, flat   bool
+		boundy     bool
 		tag        string
 		swapOK     int // 0 not applicable, 1 ok, 2 differs
 		swapSrc    string
@@ -990,7 +1025,11 @@ func runC04(c *Cfg) {
 					}
 					return "unclassified-deviation"
 				}
-				if rs.nn && u.refDeviates(e) {
+				// bounds are validated late by the evaluator (1 & >1 survives the
+				// intermediate cross products), which the reference transcription does
+				// not follow: with bounds the shape alone decides the class
+				rs.boundy = u.hasBound(e)
+				if rs.nn && (u.refDeviates(e) || rs.boundy) {
 					rs.tag = shapeTag(e)
 				}
 				mv, _ := u.refModel(e)
@@ -1009,7 +1048,7 @@ func runC04(c *Cfg) {
 						rs.swapOK = 1
 						if !same(rs.obs, u.observe(w, rs.swapSrc)) {
 							rs.swapOK = 2
-							if !refSame(e, sw) {
+							if !refSame(e, sw) || u.hasBound(e) {
 								rs.swapTag = shapeTag(e)
 							}
 						}
@@ -1023,7 +1062,7 @@ func runC04(c *Cfg) {
 						rs.dupOK = 1
 						if !same(rs.obs, u.observe(w, rs.dupSrc)) {
 							rs.dupOK = 2
-							if !refSame(e, dup) {
+							if !refSame(e, dup) || u.hasBound(e) {
 								rs.dupTag = shapeTag(e)
 							}
 						}
@@ -1051,7 +1090,13 @@ func runC04(c *Cfg) {
 			if rs.flat {
 				cl = "O" // inside the fragment the model's answer is proved to be the spec's
 			}
-			c.Op(cl, "model "+rs.rpn+" "+cb, implModel)
+			if rs.nn && (rs.flat || !rs.boundy) {
+				c.Op(cl, "model "+rs.rpn+" "+cb, implModel)
+			} else {
+				// marks nested inside marked disjunctions are outside the claim: only the
+				// disjunct values (C04_values holds for every tree) are compared
+				c.Op("I", "mvals "+rs.rpn+" "+u.pbits.String(), fmt.Sprintf("vals=%s acc=%s", o.vals[0], o.acc))
+			}
 			if i%50 == 0 {
 				nm, ch := 0, 0
 				var cs []*c4Expr
